@@ -28,6 +28,10 @@ type Child struct {
 	Lat int    `json:"lat"`
 	Lon int    `json:"lon"`
 	Ori int    `json:"ori"`
+	// what an update must not touch: the member's role and the optional node path of a way member
+	// (entries [node ref, lon, lat]); always "" / [] for way nodes
+	Role  string   `json:"role"`
+	Nodes [][3]int `json:"nodes"`
 }
 
 type Upd struct {
@@ -48,6 +52,7 @@ type Case struct {
 	T2       int     `json:"t2"`
 	TMax     int     `json:"tmax"`
 	Members  []GMem  `json:"members"` // kind "group": the member list handed to mputil.Group
+	Queries  []Query `json:"queries"` // kind "group": the queries made one after the other on the way
 	TS       int     `json:"ts"`      // the element's own Timestamp: -1 = zero time, else symbolic time
 	Com      int     `json:"com"`     // the element's Committed: -1 = nil, else symbolic time
 	Profile  int     `json:"profile"` // rendering parameter: which time profile to use
@@ -61,6 +66,12 @@ type GMem struct {
 	Ori  int    `json:"ori"`
 }
 
+// Query is one read-only call: op "group" = mputil.Group(members, {way}, t), op "lsat" = way.LineStringAt(t).
+type Query struct {
+	Op string `json:"op"`
+	T  int    `json:"t"`
+}
+
 // Seg is one segment returned by mputil.Group.
 type Seg struct {
 	Idx  int      `json:"idx"`
@@ -69,15 +80,23 @@ type Seg struct {
 	Line [][2]int `json:"line"`
 }
 
-// GotGroup is what a kind "group" case records.
-type GotGroup struct {
+// Answer is what one query returned, plus the geometry of a copy of the way, taken before the first query,
+// after ApplyUpdatesUpTo(t).
+type Answer struct {
+	Line    [][2]int `json:"line"`
 	Outer   []Seg    `json:"outer"`
 	Inner   []Seg    `json:"inner"`
 	Tainted bool     `json:"tainted"`
 	Crash   bool     `json:"crash"`
-	AErr    string   `json:"aerr"`    // ApplyUpdatesUpTo(t1) on a copy of the way
-	Applied [][2]int `json:"applied"` // LineString() of that copy
-	State   State    `json:"state"`   // the way after Group
+	AErr    string   `json:"aerr"`
+	Applied [][2]int `json:"applied"`
+}
+
+// GotGroup is what a kind "group" case records.
+type GotGroup struct {
+	Answers []Answer `json:"answers"`
+	State   State    `json:"state"` // the way after the last query
+	Own     [2]int   `json:"own"`
 }
 
 type RecGroup struct {
@@ -285,9 +304,13 @@ func (r R) build(c *Case) element {
 	rel := &osm.Relation{ID: 9, Version: 2, Visible: true, Updates: r.updsOf(c.Updates)}
 	rel.Timestamp, rel.Committed = r.ownOf(c)
 	for _, ch := range c.Children {
-		rel.Members = append(rel.Members, osm.Member{Type: osm.Type(ch.Typ), Ref: int64(ch.Ref), Role: "outer",
+		m := osm.Member{Type: osm.Type(ch.Typ), Ref: int64(ch.Ref), Role: ch.Role,
 			Version: ch.Ver, ChangesetID: csOf(ch.CS), Lat: latOf(ch.Lat), Lon: lonOf(ch.Lon),
-			Orientation: orb.Orientation(ch.Ori)})
+			Orientation: orb.Orientation(ch.Ori)}
+		for _, nd := range ch.Nodes {
+			m.Nodes = append(m.Nodes, osm.WayNode{ID: osm.NodeID(nd[0]), Lon: lonOf(nd[1]), Lat: latOf(nd[2])})
+		}
+		rel.Members = append(rel.Members, m)
 	}
 	return rel
 }
@@ -315,13 +338,17 @@ func (r R) state(e element) State {
 	case *osm.Way:
 		for _, n := range x.Nodes {
 			s.Children = append(s.Children, Child{Typ: "node", Ref: int(n.ID), Ver: n.Version, CS: csInv(n.ChangesetID),
-				Lat: inv(latOf, n.Lat), Lon: inv(lonOf, n.Lon), Ori: 0})
+				Lat: inv(latOf, n.Lat), Lon: inv(lonOf, n.Lon), Ori: 0, Role: "", Nodes: [][3]int{}})
 		}
 		s.Pending = r.absUpds(x.Updates)
 	case *osm.Relation:
 		for _, m := range x.Members {
+			nodes := [][3]int{}
+			for _, nd := range m.Nodes {
+				nodes = append(nodes, [3]int{int(nd.ID), inv(lonOf, nd.Lon), inv(latOf, nd.Lat)})
+			}
 			s.Children = append(s.Children, Child{Typ: string(m.Type), Ref: int(m.Ref), Ver: m.Version, CS: csInv(m.ChangesetID),
-				Lat: inv(latOf, m.Lat), Lon: inv(lonOf, m.Lon), Ori: int(m.Orientation)})
+				Lat: inv(latOf, m.Lat), Lon: inv(lonOf, m.Lon), Ori: int(m.Orientation), Role: m.Role, Nodes: nodes})
 		}
 		s.Pending = r.absUpds(x.Updates)
 	}
@@ -389,13 +416,11 @@ func (r R) geom(orig element, t int, applied element, at0 [][2]int, crash0 bool)
 	return g
 }
 
-// group runs mputil.Group on the case's way.
+// group runs the case's queries one after the other on one way object.  The geometries they are compared
+// with come from copies of the way taken, and updated, before the first query.
 func (r R) group(c *Case, line []byte) RecGroup {
 	var g GotGroup
 	orig := r.build(c).(*osm.Way)
-	cp := copyOf(orig, c.Profile%3)
-	g.AErr = r.apply(cp, c.T1).Err
-	g.Applied = absLine(cp.(*osm.Way).LineString())
 	var ms osm.Members
 	for _, m := range c.Members {
 		mem := osm.Member{Type: osm.TypeWay, Ref: int64(orig.ID), Role: m.Role, Orientation: orb.Orientation(m.Ori)}
@@ -414,17 +439,30 @@ func (r R) group(c *Case, line []byte) RecGroup {
 		}
 		return out
 	}
-	g.Outer, g.Inner = []Seg{}, []Seg{}
-	func() {
-		defer func() {
-			if p := recover(); p != nil {
-				g.Crash = true
-			}
+	g.Answers = make([]Answer, len(c.Queries))
+	for i, q := range c.Queries {
+		cp := copyOf(orig, (c.Profile+i)%3)
+		g.Answers[i] = Answer{Line: [][2]int{}, Outer: []Seg{}, Inner: []Seg{}, AErr: r.apply(cp, q.T).Err}
+		g.Answers[i].Applied = absLine(cp.(*osm.Way).LineString())
+	}
+	for i, q := range c.Queries {
+		a := &g.Answers[i]
+		if q.Op == "lsat" {
+			a.Line, a.Crash = r.lineAt(orig, q.T)
+			continue
+		}
+		func() {
+			defer func() {
+				if p := recover(); p != nil {
+					a.Crash = true
+				}
+			}()
+			o, in, t := c15mp.Group(ms, map[osm.WayID]*osm.Way{orig.ID: orig}, r.timeOf(q.T, r.prof.qLoc))
+			a.Outer, a.Inner, a.Tainted = segs(o), segs(in), t
 		}()
-		o, i, t := c15mp.Group(ms, map[osm.WayID]*osm.Way{orig.ID: orig}, r.timeOf(c.T1, r.prof.qLoc))
-		g.Outer, g.Inner, g.Tainted = segs(o), segs(i), t
-	}()
+	}
 	g.State = r.state(orig)
+	g.Own = r.ownAbs(orig)
 	return RecGroup{Case: line, Got: g}
 }
 
